@@ -538,7 +538,7 @@ def explore_config(res, group, c, root_cache):
         fsmod.ThreadPoolExecutor = world.executor_class("thread")
         fsmod.ProcessPoolExecutor = world.executor_class("process")
         fsmod.gc = NoGC
-        restore = world.install_waiters()
+        restore = world.install_waiters((fsmod,))
         try:
             fs.info_cache.clear()
             obs = r.execute()
